@@ -61,6 +61,7 @@ type exchange struct {
 // that an aborted exchange can be reported with the proxy's stated reason.
 type logRing struct {
 	mu    sync.Mutex
+	at    []time.Time
 	lines []string
 }
 
@@ -70,22 +71,29 @@ func (l *logRing) Write(b []byte) (int, error) {
 		if len(ln) > 400 {
 			ln = ln[:400] + "…"
 		}
-		l.lines = append(l.lines, time.Now().Format("15:04:05.000 ")+ln)
+		l.at = append(l.at, time.Now())
+		l.lines = append(l.lines, ln)
 	}
 	if len(l.lines) > 4000 {
 		l.lines = append([]string{}, l.lines[len(l.lines)-2000:]...)
+		l.at = append([]time.Time{}, l.at[len(l.at)-2000:]...)
 	}
 	l.mu.Unlock()
 	return len(b), nil
 }
 
+// tail returns up to n of the lines logged during the last 3 seconds.
 func (l *logRing) tail(n int) []string {
 	l.mu.Lock()
 	defer l.mu.Unlock()
-	if len(l.lines) < n {
-		n = len(l.lines)
+	var out []string
+	for i := len(l.lines) - 1; i >= 0 && len(out) < n; i-- {
+		if time.Since(l.at[i]) > 3*time.Second {
+			break
+		}
+		out = append([]string{l.at[i].Format("15:04:05.000 ") + l.lines[i]}, out...)
 	}
-	return append([]string{}, l.lines[len(l.lines)-n:]...)
+	return out
 }
 
 type world struct {
@@ -322,8 +330,14 @@ func (w *world) judge(x *exchange) {
 			if s.Proto == "h1" && s.HasBody && s.DeclareCL && s.BodyLen > 0 {
 				class = "h1-content-length-body"
 			}
+			msg := "the client did not receive a complete response: " + e
+			for _, ln := range w.logs.tail(60) {
+				if strings.Contains(ln, "read error during body copy") {
+					msg += " [proxy log: " + ln + "]"
+				}
+			}
 			order = append(order, class)
-			byClass[class] = []string{"the client did not receive a complete response: " + e}
+			byClass[class] = []string{msg}
 		}
 	} else if produced != nil {
 		run.Add("responses_compared_at_client", 1)
@@ -507,7 +521,7 @@ func (w *world) layout() []*connPlan {
 		conns = append(conns, cp)
 	}
 	// HTTP/1.1 uploads with Content-Length answered at once with a long body (see genRaceSpec)
-	nr := run.Pick(32, 128)
+	nr := run.Pick(16, 64)
 	for i := 0; i < nr; i++ {
 		cp := &connPlan{id: len(conns), proto: "h1", preserve: i%2 == 1, stat: &connStat{}, stress: true}
 		var xs []*exchange
@@ -593,7 +607,7 @@ func main() {
 	for phase := 0; phase < 2; phase++ {
 		par := 6
 		if phase == 1 {
-			par = 32
+			par = 16
 		}
 		sem := make(chan struct{}, par)
 		var wg sync.WaitGroup
